@@ -236,7 +236,7 @@ var props = map[string]Prop{
 	},
 	"C13": {
 		ID: "C13", Level: "exploration",
-		Rule: "rapid generates a module main -> p1 -> ... (2-4 packages; per package a constant folded into its importers, optionally an embedded file, a C file named by LLGoFiles, build-tag-selected files, init-carrying extra files) and a history of 5-12 steps (edit the constant of main / a dependency / the leaf, edit an embedded file with the same or another length, edit the C file, toggle the build tag, add or remove a source file, revert the previous edit, rewrite a file unchanged, switch -O0/-O2, rebuild unchanged, drop the module's cache entries, and a dedicated edit that keeps size and modification time); after every step the module is rebuilt with the same cache directory and run, and must print what the model computes from the current inputs; at the end two builds from an empty module cache must give byte-identical archive members. A case is one step; non-trivial = the step changes an input of a package whose archive is in the cache.",
+		Rule: "rapid generates a module main -> p1 -> ... (2-4 packages; per package a constant folded into its importers, optionally an embedded file, a C file named by LLGoFiles, build-tag-selected files, init-carrying extra files) and a history of 5-12 steps (edit the constant of main / a dependency / the leaf, edit an embedded file with the same or another length, edit the C file, toggle the build tag, add or remove a source file, revert the previous edit, rewrite a file unchanged, switch -O0/-O2, rebuild unchanged, drop the module's cache entries, and a dedicated edit that keeps size and modification time); after every step the module is rebuilt with the same cache directory and run, and must print what the model computes from the current inputs; at the end two builds from an empty module cache must give byte-identical archive members. A case is one step; non-trivial = the step changes an input of a package whose archive is in the cache. Third-round additions: a package may import a declaration-only binding package d<i> (LLGoPackage = decl, a linkname'd C function, a constant of its own and one forwarded from a further package c<i>) with steps editing d<i> and c<i>; package main may build types with reflect.SliceOf/PointerTo/MapOf/ArrayOf (short histories); at the end the executables of the two builds from an empty module cache must be byte-identical too.",
 		Assumptions: []string{
 			"every input is printed by the program by construction, so the model's expected output is exact",
 			"-X overrides are not reachable from the llgo command line (only through build.Config.GlobalRewrites) and behaviour-affecting environment variables have no observable effect on these programs: neither is generated",
